@@ -32,6 +32,8 @@ QUICK = [
     (2, 2, 1, 30000, ["join", "stop"], dict(s1=S("enq:1", "enq:2", "enq:3"))),
     # stop -> reset -> start on a pool whose initial size is its maximum, a submission at any moment of the cycle
     (2, 2, 2, 30000, ["stop", "restart", "join"], dict(s1=S("try:1", "fut:2"))),
+    # ... and on a pool that grows: a submitter may still hold a worker-slot reservation when the pool is stopped, reset and started
+    (1, 2, 3, 30000, ["stop", "restart", "join"], dict(s1=S("try:1"), s2=S("try:2", "try:3"))),
 ]
 THOROUGH = QUICK + [
     (1, 2, 2, 30000, ["stop"], dict(s1=S("try:1"), s2=S("try:2"), s3=S("try:3", "count"))),
@@ -63,7 +65,8 @@ def gen_mc(ck, idx, case, reserves=True):
                                  "Life": "<- MCLife", "MaxW": init + ntasks + 1 + init * sum(1 for x in life if x == "restart"),
                                  "SpawnReserves": reserves is not False,
                                  "DtorJoinsAfterStop": reserves != "nodtorjoin", "RecheckShutdown": reserves != "norecheck",
-                                 "RestartSpawnsFirst": reserves == "restartspawnsfirst", "RestartReserves": reserves != "norestartreserve"},
+                                 "RestartSpawnsFirst": reserves == "restartspawnsfirst", "RestartReserves": reserves != "norestartreserve",
+                                 "ResetKeepsGate": reserves != "resetopensgate", "ResetKeepsPending": reserves != "resetzeroespending"},
                  invariants=INVS)
     return os.path.join(d, "MCPool.tla"), cfg
 
@@ -82,7 +85,8 @@ def run(ck):
         return job, vf.run_tlc(tla_path, cfg, tag="C09_mc%d%s" % (idx, reserves), workers=3, lib_dirs=[SPECDIR], coverage=(reserves is True),
                                timeout=1200)
     jobs = [(i, c, True) for i, c in enumerate(cases)] + [(0, cases[0], False), (1, cases[1], "nodtorjoin"), (1, cases[1], "norecheck"),
-                                                          (5, cases[5], "restartspawnsfirst"), (5, cases[5], "norestartreserve")]
+                                                          (5, cases[5], "restartspawnsfirst"), (5, cases[5], "norestartreserve"),
+                                                          (5, cases[5], "resetopensgate"), (6, cases[6], "resetzeroespending")]
     with cf.ThreadPoolExecutor(max_workers=5) as ex:
         results = list(ex.map(mc, jobs))
     for (idx, case, reserves), r in results:
@@ -97,6 +101,11 @@ def run(ck):
         if reserves == "nodtorjoin":
             if r.violated != "NoJoinableLeft":
                 raise vf.Infra("self-test: ThreadPool.tla with DtorJoinsAfterStop=FALSE should violate NoJoinableLeft, got %r" % r.violated)
+            continue
+        if reserves in ("resetopensgate", "resetzeroespending"):
+            want = ("StopComplete", "RanOnlyAccepted", "NoStuck") if reserves == "resetopensgate" else ("ThreadCap",)
+            if r.violated not in want:
+                raise vf.Infra("self-test: ThreadPool.tla with %s should violate %s, got %r" % (reserves, want[0], r.violated))
             continue
         if reserves == "norestartreserve":
             if r.violated != "ThreadCap":
@@ -139,6 +148,12 @@ def run(ck):
     lines.append("1 2 2 30000 | main=stop,join;s1=try:1:n | replay main*point:call s1*lock w1* main main*point:call w1* main*point:call w1* main*point:call s1* w2* main* w2* main*")
     lines.append("1 2 2 30000 | main=stop,join;s1=enq:1:n,fut:2:n | replay main*point:call s1*lock w1* main main*point:call w1* main*point:call w1* main*point:call s1* w2* main* w2* main*")
     ck.sample({"kind": "directed probe (TLC counterexample of DtorJoinsAfterStop=FALSE)", "case": lines[-4]})
+    #   ResetKeepsGate=FALSE: the same submitter is held until reset() has returned too (the pool is then Reset, not restarted: refused)
+    lines.append("1 2 2 30000 | main=stop,reset,join;s1=try:1:n | replay main*point:call s1*lock w1* main main*point:call w1* main*point:call w1* main*point:call main main*point:call s1* w2* main* w2* main*")
+    lines.append("1 2 2 30000 | main=stop,reset,join,start,join;s1=try:1:n | replay main*point:call s1*lock w1* main main*point:call w1* main*point:call w1* main*point:call main main*point:call s1* w2* main* w2* main*")
+    #   ResetKeepsPending=FALSE: a submitter that has reserved a worker slot is held before it creates the thread until the pool has
+    #   been stopped, reset and started again; it then registers its worker and the restarted pool is loaded
+    lines.append("1 2 3 30000 | main=stop,reset,start,join,count;s1=try:1:n;s2=try:2:n,try:3:n,count | replay main*point:call s1*create w1* main main*point:call w1* main*point:call w1* main*point:call main main*point:call main main*point:call s1* s2* main*")
     # idle exits racing submissions: a lazily growing pool (0 initial workers, at most 1) and timed waits that may expire while
     # submitters are runnable
     for i in range(120 if thorough else 40):
@@ -166,13 +181,14 @@ def run(ck):
     # did the directed probes reach their window?  (recorded, not demanded: a changed tree may take other steps)
     execs = vf.split_executions(vf.read_ndjson(outp))
     for i, ln in enumerate(lines):
-        if "s1*lock" in ln and i < len(execs):
+        if ("s1*lock" in ln or ("s1*create" in ln and "reset" in ln)) and i < len(execs):
             names = [(e["e"], e.get("op"), e.get("t")) for e in execs[i][1]]
+            last = ("RestartRet", None, None) if "s1*create" in ln else ("ResetRet", None, None) if "reset" in ln else ("LifeRet", "stop", None)
             try:
-                hit = names.index(("LifeRet", "stop", None)) < names.index(("SubmitRet", None, "s1"))
+                hit = names.index(last) < names.index(("SubmitRet", None, "s1"))
             except ValueError:
                 hit = False
-            ck.note("directed probe %r: submission held across stop() = %s" % (ln.split("|")[1].strip(), hit))
+            ck.note("directed probe %r: submission held until %s = %s" % (ln.split("|")[1].strip(), last[0] + (":" + last[1] if last[1] else ""), hit))
     # ---- real pool: preemption-bounded DFS
     dfs = [(cases[0], 1, 2500), (cases[1], 1, 2500)] if not thorough else [(c, 2, 20000) for c in cases[:6]]
     xdfs = [(EXTRA[0], 1, 800), (EXTRA[2], 1, 800)] if not thorough else [(p, 2, 8000) for p in EXTRA]
